@@ -183,3 +183,52 @@ c.ensures('members-are-exactly-the-jobs-given', _sch_members, props=['C19'])
 c.ensures('requires-exactly-the-leaves-of-required', _sch_requirements, props=['C19'])
 c.ensures('registered-in-the-scheduler', _sch_registered, props=['C19'])
 c.ensures('flags-and-parameters-recorded', _sch_flags, props=['C19'])
+
+
+# ---------------------------------------------------------------- Job.co_run / Job.co_shutdown (C14)
+# A coroutine-based Job awaits the coroutine object it was given.  `$await` is the environment contract of that
+# await (E9 again: the user's coroutine returns some object or raises some exception, and writes nothing of the tree).
+c = contract('$await', None, kind='env').param('obj').returns('ref')
+c.is_async = True
+c.suspends = True
+c.may_cancel = True
+c.raise_fresh = False
+c.assumed = ['E9 (await of a user coroutine object): it returns any object or raises any exception; CancelledError only '
+             'if cancelled; it writes no attribute of a job or scheduler of the tree']
+
+
+def _aw_post(c):
+    c.cur.g['$awaited-value'] = c.result
+    return z3.BoolVal(True)
+
+
+def _aw_raise(c):
+    c.cur.g['$awaited-exc'] = c.exc
+    return z3.BoolVal(True)
+
+
+c.ensures('returns-some-object', _aw_post)
+c.raises('Exception', 'raises-some-exception', _aw_raise)
+
+c = contract('Job.co_run', FJ).param('self').returns('ref')
+c.for_props('C14')
+c.is_async = True
+c.rely = lambda c: []
+c.rely_fields = []
+c.requires('self-is-a-job', lambda c: isa['Job'](c.a.self))
+c.ensures('returns-what-its-coroutine-returned', lambda c: c.result == c.cur.g['$awaited-value'], props=['C14'])
+c.raises('Exception', 'raises-what-its-coroutine-raised', lambda c: c.exc == c.cur.g['$awaited-exc'], props=['C14'])
+c.raises('CancelledError', 'when-cancelled-while-awaiting', lambda c: z3.BoolVal(True))
+c.store_guard = lambda c, field, obj, val: z3.BoolVal(False)      # it writes nothing
+
+c = contract('Job.co_shutdown', FJ).param('self').returns('ref')
+c.for_props('C13')
+c.is_async = True
+c.rely = lambda c: []
+c.rely_fields = []
+c.requires('self-is-a-job', lambda c: isa['Job'](c.a.self))
+c.ensures('returns-what-its-handler-returned-or-None', lambda c: Or(
+    c.result == NONE, c.result == c.cur.g.get('$awaited-value', NONE)), props=['C13'])
+c.raises('Exception', 'raises-what-its-handler-raised', lambda c: c.exc == c.cur.g['$awaited-exc'])
+c.raises('CancelledError', 'when-cancelled-while-awaiting', lambda c: z3.BoolVal(True))
+c.store_guard = lambda c, field, obj, val: z3.BoolVal(False)
